@@ -23,6 +23,13 @@ pub enum CfgError {
     /// This error occurs when a return statement is used but can be reached by
     /// no labels.
     NoLabelForReturn(ParserNode),
+    /// This error occurs when a jump or branch targets a label that no
+    /// instruction follows.
+    LabelWithoutInstruction(LabelStringToken),
+    /// This error occurs when no return can be reached from the entry of a
+    /// function (the node is the first instruction of the function, the string
+    /// its name).
+    FunctionWithoutReturn(ParserNode, String),
     /// Unexpected error
     UnexpectedError,
     /// Assertion error
@@ -62,6 +69,12 @@ impl Display for CfgError {
             CfgError::NoLabelForReturn(_) => {
                 write!(f, "No label for return")
             }
+            CfgError::LabelWithoutInstruction(label) => {
+                write!(f, "No instruction after label: {label}")
+            }
+            CfgError::FunctionWithoutReturn(_, name) => {
+                write!(f, "Function never returns: {name}")
+            }
             CfgError::UnexpectedError => write!(f, "Unexpected error"),
             CfgError::AssertionError => write!(f, "Assertion error"),
         }
@@ -75,6 +88,8 @@ impl From<&CfgError> for SeverityLevel {
             | CfgError::DuplicateLabel(_)
             | CfgError::MultipleLabelsForReturn(_, _)
             | CfgError::NoLabelForReturn(_)
+            | CfgError::LabelWithoutInstruction(_)
+            | CfgError::FunctionWithoutReturn(_, _)
             | CfgError::UnexpectedError
             | CfgError::AssertionError => SeverityLevel::Error,
         }
@@ -88,7 +103,10 @@ impl DiagnosticLocation for CfgError {
                 node.file()
             }
             CfgError::LabelsNotDefined(labels) => labels.iter().min().unwrap().file(),
-            CfgError::DuplicateLabel(label) => label.file(),
+            CfgError::FunctionWithoutReturn(node, _) => node.file(),
+            CfgError::DuplicateLabel(label) | CfgError::LabelWithoutInstruction(label) => {
+                label.file()
+            }
             CfgError::UnexpectedError | CfgError::AssertionError => uuid::Uuid::nil(),
         }
     }
@@ -99,7 +117,10 @@ impl DiagnosticLocation for CfgError {
                 node.range()
             }
             CfgError::LabelsNotDefined(labels) => labels.iter().min().unwrap().range(),
-            CfgError::DuplicateLabel(label) => label.range(),
+            CfgError::FunctionWithoutReturn(node, _) => node.range(),
+            CfgError::DuplicateLabel(label) | CfgError::LabelWithoutInstruction(label) => {
+                label.range()
+            }
             CfgError::UnexpectedError | CfgError::AssertionError => crate::parser::Range::default(),
         }
     }
@@ -110,7 +131,10 @@ impl DiagnosticLocation for CfgError {
                 node.raw_text()
             }
             CfgError::LabelsNotDefined(labels) => labels.iter().min().unwrap().raw_text(),
-            CfgError::DuplicateLabel(label) => label.raw_text(),
+            CfgError::FunctionWithoutReturn(node, _) => node.raw_text(),
+            CfgError::DuplicateLabel(label) | CfgError::LabelWithoutInstruction(label) => {
+                label.raw_text()
+            }
             CfgError::UnexpectedError | CfgError::AssertionError => String::new(),
         }
     }
@@ -158,6 +182,12 @@ impl DiagnosticMessage for CfgError {
                 A label is considered a function if it has been called by a [jal] instruction. This code might also be\
                 missing from your file or imports.
                 ".to_string(),
+            CfgError::LabelWithoutInstruction(label) => format!(
+                "The label {label} is the target of a jump or branch, but no instruction follows it."
+            ),
+            CfgError::FunctionWithoutReturn(_, name) => format!(
+                "The function {name} is called, but no return instruction can be reached from its first instruction."
+            ),
             CfgError::UnexpectedError => "An unexpected error occurred. Please file a bug.".to_string(),
             CfgError::AssertionError => "An unexpected assertion error occurred. Please file a bug.".to_string(),
         }
